@@ -1,5 +1,6 @@
 """Helpers shared by the per-property rule modules."""
 import ast
+import re
 
 from .. import pm
 from ..cfg import CFG, facts_at, guards_of
@@ -339,3 +340,90 @@ def conj_parts(t):
             out.extend(conj_parts(v))
         return out
     return [t]
+
+
+def aggregator_shape(ctx):
+    """Semantic shape of ArchSemantics.get_throughput_sum(kernel), whatever its spelling:
+        result[c] = round(sum(column c of rows), digits)   with   rows = [<elt> for i in kernel if <filter>]
+    Returns a dict: rows_elt (text, instr var normalised to I), filter (list of condition texts, normalised), digits (node),
+    rounds (all round() calls), ok (bool: recognised), why."""
+    s = ctx.func("ArchSemantics.get_throughput_sum")
+    k = s.params()[0]
+    out = {"func": s, "ok": False, "why": "", "rows_elt": None, "filter": None, "digits": None, "inner_rounds": []}
+    rets = [r for r in ast.walk(s.node) if isinstance(r, ast.Return) and r.value is not None]
+    if len(rets) != 1:
+        out["why"] = "%d return statements" % len(rets)
+        return out
+    v = flow_of(s).subst(rets[0].value)
+    # strip list()/tuple()
+    while isinstance(v, ast.Call) and isinstance(v.func, ast.Name) and v.func.id in ("list", "tuple") and len(v.args) == 1:
+        v = v.args[0]
+    col_sum = None      # expression for the per-column iterable: zip(*rows)
+    digits = None
+    if isinstance(v, (ast.ListComp, ast.GeneratorExp)) and len(v.generators) == 1 and not v.generators[0].ifs:
+        g = v.generators[0]
+        b = pm.match("round(M_x, M_d)", v.elt)
+        if b is not None:
+            digits = b["M_d"]
+            x, it = b["M_x"], g.iter
+            bs = pm.match("sum(M_g)", x) or pm.match("math.fsum(M_g)", x)
+            if bs is not None and U(bs["M_g"]) == U(g.target):
+                col_sum = it                                    # [round(sum(col), d) for col in zip(*rows)]
+            elif bs is not None and isinstance(bs["M_g"], (ast.GeneratorExp, ast.ListComp)) and len(bs["M_g"].generators) == 1 \
+                    and U(bs["M_g"].generators[0].iter) == U(g.target) and not bs["M_g"].generators[0].ifs:
+                col_sum = it                                    # ... sum(<f(v)> for v in col): f is looked at below
+                per_value = bs["M_g"].elt
+                if U(per_value) != U(bs["M_g"].generators[0].target):
+                    out["per_value"] = per_value
+            elif U(x) == U(g.target) and pm.match("map(sum, M_z)", it) is not None:
+                col_sum = pm.match("map(sum, M_z)", it)["M_z"]  # [round(t, d) for t in map(sum, zip(*rows))]
+    if col_sum is None:
+        b = pm.match("map(lambda M_c: round(sum(M_c), M_d), M_z)", v)
+        if b is not None:
+            digits, col_sum = b["M_d"], b["M_z"]
+    if col_sum is None:
+        out["why"] = "result is not [round(sum(column), digits) for column in zip(*rows)]: %s" % U(v)[:120]
+        return out
+    bz = pm.match("zip(*M_rows)", col_sum)
+    if bz is None:
+        out["why"] = "columns are not zip(*rows): %s" % U(col_sum)[:80]
+        return out
+    rows = bz["M_rows"]
+    while isinstance(rows, ast.Call) and isinstance(rows.func, ast.Name) and rows.func.id in ("list", "tuple") and len(rows.args) == 1:
+        rows = rows.args[0]
+    if not (isinstance(rows, (ast.ListComp, ast.GeneratorExp)) and len(rows.generators) == 1 and U(rows.generators[0].iter) == k):
+        out["why"] = "rows are not a comprehension over the kernel: %s" % U(rows)[:80]
+        return out
+    g = rows.generators[0]
+    var = U(g.target)
+    norm = lambda e: re.sub(r"\b%s\b" % re.escape(var), "I", U(e))
+    out["rows_elt"] = norm(rows.elt)
+    out["filter"] = sorted(norm(c) for cc in g.ifs for c in conj_parts(cc))
+    out["digits"] = digits
+    out["inner_rounds"] = [c for c in ast.walk(rows) if isinstance(c, ast.Call) and isinstance(c.func, ast.Name) and c.func.id == "round"]
+    pv = out.get("per_value")
+    if pv is not None:
+        r_ = [c for c in ast.walk(pv) if isinstance(c, ast.Call) and isinstance(c.func, ast.Name) and c.func.id == "round"]
+        if r_:
+            out["inner_rounds"] += r_
+        else:
+            out["why"] = "the summed per-line values are transformed by `%s`" % U(pv)[:60]
+            return out
+    out["ok"] = True
+    return out
+
+
+def const_value(ctx, f, e):
+    """Numeric value of a literal, or of a module / class constant bound to one (named constants)."""
+    v = const_num(e)
+    if v is not None:
+        return v
+    if isinstance(e, ast.Name) and e.id in f.module.globals:
+        return const_num(f.module.globals[e.id])
+    if isinstance(e, ast.Attribute) and isinstance(e.value, ast.Name):
+        owner = f.cls.name if (e.value.id in ("self", "cls") and f.cls is not None) else e.value.id
+        if owner in ctx.repo.classes:
+            for c in ctx.repo.mro(owner):
+                if e.attr in ctx.repo.classes[c].class_attrs:
+                    return const_num(ctx.repo.classes[c].class_attrs[e.attr])
+    return None
